@@ -30,13 +30,10 @@ Definition validate_flags (fs : str) : option N := validate_flags_from [] fs.
 
 Inductive decision := NoReport | Report | RulePanic (site : N) | RuleFuel.
 
-Section Build.
-Variable debug_build : bool.
-
 (* check_for_invalid_pattern: validate_pattern(..).is_err(), keeping the state the validator is left in *)
 Inductive pv := PvValid (s : vst) | PvInvalid (m : N) (s : vst) | PvPanic (site : N) | PvFuel.
 Definition check_pattern (st : vst) (src : str) (u : bool) : pv :=
-  match validate_pattern debug_build st src u with
+  match validate_pattern st src u with
   | Ok _ s => PvValid s | SyntaxErr m s => PvInvalid m s | Panic p => PvPanic p | OutOfFuel => PvFuel end.
 
 (* (invalid(pattern, true) && invalid(pattern, false)) *)
@@ -96,7 +93,6 @@ Fixpoint validate_seq (st : vst) (items : list (str * bool)) : list seq_out :=
       end
   end.
 
-End Build.
 
 (* a deliberately dirty validator state (testing history independence): wrong flags, stale last_* values,
    non-empty name sets, a reader positioned inside some other source *)
